@@ -20,7 +20,7 @@ RULE = (
     "phi when given (used by the topology or not) x 2 admissible states. Non-trivial = >=2 symbolic parameters of "
     "different kinds and finite outputs. Distinct = SHA-1 of the case."
 )
-BUDGET = {"quick": {"examples": 200, "shards": 4}, "thorough": {"examples": 2000, "shards": 16}}
+BUDGET = {"quick": {"examples": 200, "shards": 4}, "thorough": {"fuzz_runs": 3000, "examples": 2000, "shards": 16}}
 EXPECTED_LABELS = ("engine:SX", "engine:MX", "compact:-1", "compact:0", "compact:1", "compact:2", "compact:3", "more_out", "par:rho_crit",
                    "par:v_free", "par:a", "par:C", "par:tau", "par:eta", "par:kappa", "par:T", "par:delta", "par:phi",
                    "unused-parameter", "lane-drop>0", "interior-ramp")
@@ -72,12 +72,28 @@ def check_case(case, ctx):
         kinds.add(pname)
         if unused(sp, eid, pname):
             ctx.label("unused-parameter")
-    r = guarded(ctx, "compile-symbolic", c03.compile_case, case)
+    overrides, par_over, parameters, values = c03.make_symbolic(sp, sym, case["sympars"])
+    params = [(k, 1) for k in parameters]
+    declared = list(parameters.items())
+    stp = guarded(ctx, "step-symbolic", cas.Stepped, sp, sym, (), overrides, par_over)
+    if crashed(stp):
+        return
+    r = guarded(ctx, "compile-symbolic", stp.to_function, compact, more_out, parameters)
     rn = guarded(ctx, "compile-numeric", c03.compile_case, dict(case, sympars=None))
     if crashed(r) or crashed(rn):
         return
-    F, lay, params, values = r
+    F = r
+    lay = layout.Layout(sp, layout.element_order(stp.net, stp.els))
     Fn, layn, _, _ = rn
+    # the declared-parameters dictionary belongs to the caller
+    now = list(parameters.items())
+    if [k for k, _ in now] != [k for k, _ in declared] or any(a[1] is not b[1] for a, b in zip(now, declared)):
+        ctx.fail("parameters:dict-modified", f"to_function modified the caller's parameters dictionary: {[k for k, _ in declared]} -> {[k for k, _ in now]}")
+        parameters.clear()
+        parameters.update(declared)
+    # compiling again from the same step with the same dictionary (another level) must work and agree
+    other = {0: 2, 1: 0, 2: 1}[level]
+    F2 = guarded(ctx, "compile-symbolic-again", stp.to_function, other, more_out, parameters)
     if F.get_free():
         ctx.fail("free-symbols", f"function with declared parameters has free symbols {F.get_free()}")
     # trailing arguments
@@ -119,5 +135,13 @@ def check_case(case, ctx):
                 x, y = a[2][i], b[2][i]
                 if not (x == y or abs(x - y) <= 1e-12 * (abs(x) + abs(y)) or (x != x and y != y)):
                     ctx.fail("value:q_o", f"q_o of {i}: {x!r} vs {y!r}")
+    if not crashed(F2):
+        state = case["states"][0]
+        a = guarded(ctx, "call-symbolic-again", c03.call, F2, lay, other, state, params, values, more_out)
+        b = guarded(ctx, "call-numeric", c03.call, Fn, layn, compact, state, [], {}, more_out)
+        if not crashed(a) and not crashed(b):
+            bad, _ = refmodel.compare_pair(a[0], b[0], refmodel.scales(sp, state), rtol=1e-12)
+            for (i, var, k, x, y, sc, why) in bad:
+                ctx.fail(f"again:value:{why}:{var}", f"second to_function from the same step: {var}+ of {i}[{k}]: {x!r} vs numeric-parameter function {y!r}")
     if finite and len(kinds) >= 2:
         ctx.nontrivial = True
